@@ -1636,6 +1636,48 @@ func reasmFamily(ctx *Ctx) error {
 			res.Violate(common.Violation{Kind: "monitor", Clause: "C01, calls made by several goroutines at once: " + v, Input: map[string]interface{}{"kind": "stress", "stress": cfg}})
 		}
 	}
+	// cascades: one call whose clean-up evicts n+1 events in a row — an open event at the head holds back n complete ones
+	// (or n incomplete ones that time out with it), and its EOE, a Maintain after the timeout or Close releases them
+	// all. n around every power of two up to 512, windows far wider than the usual single digits.
+	if ctx.Prop != "C11" {
+		for _, n := range []int{15, 16, 17, 31, 32, 33, 47, 63, 64, 65, 80, 96, 127, 128, 129, 200, 255, 256, 257, 511, 512, 513} {
+			for _, rel := range []string{"eoe", "close", "overflow"} {
+				if ctx.Prop == "C19" && rel != "close" && n > 130 {
+					continue
+				}
+				max := 2*n + 8
+				if rel == "overflow" {
+					max = n // the push that makes n+1 buffered events evicts the open head, and the complete ones behind it follow
+				}
+				c := RCase{Max: max, TimeoutNs: int64(time.Hour), InWindow: true, Base: 5000}
+				id := 0
+				nid := func() int { id++; return id }
+				c.Ops = append(c.Ops, ROp{K: "push", ID: nid(), Seq: 5000, Typ: tSYSCALL})
+				for i := 1; i <= n; i++ {
+					seq := 5000 + uint32(i)
+					switch i % 3 {
+					case 0:
+						c.Ops = append(c.Ops, ROp{K: "push", ID: nid(), Seq: seq, Typ: 1112})
+					case 1:
+						c.Ops = append(c.Ops, ROp{K: "push", ID: nid(), Seq: seq, Typ: tSYSCALL}, ROp{K: "push", ID: nid(), Seq: seq, Typ: tCWD}, ROp{K: "push", ID: nid(), Seq: seq, Typ: tPROCTITLE})
+					default:
+						c.Ops = append(c.Ops, ROp{K: "push", ID: nid(), Seq: seq, Typ: tSYSCALL}, ROp{K: "push", ID: nid(), Seq: seq, Typ: tEOE})
+					}
+				}
+				switch rel {
+				case "eoe":
+					c.Ops = append(c.Ops, ROp{K: "push", ID: nid(), Seq: 5000, Typ: tEOE})
+				case "overflow":
+					// already released by the last push above when n+1 > max; one more event makes sure
+					c.Ops = append(c.Ops, ROp{K: "push", ID: nid(), Seq: 5000 + uint32(n) + 1, Typ: tSYSCALL})
+				}
+				c.Ops = append(c.Ops, ROp{K: "push", ID: nid(), Seq: 5000 + uint32(n) + 2, Typ: tSYSCALL}, ROp{K: "close"})
+				res.Hist("cascade")
+				report(runReasmCase(ctx, m, c, idx), c)
+				idx++
+			}
+		}
+	}
 	if ctx.Prop == "C01" {
 		for _, c := range reentrantBatchCases() {
 			res.Hist("re-entrant batch")
